@@ -30,7 +30,7 @@ func init() {
 		"github.com/pkg/errors.Errorf": nativeNonNilErr,
 		"github.com/pkg/errors.Wrap":   nativeWrapErr,
 		"github.com/pkg/errors.Wrapf":  nativeWrapErr,
-		"fmt.Sprintf":             nativeFreshPure,
+		"fmt.Sprintf":             nativeSprintf,
 		"fmt.Sprint":              nativeFreshPure,
 		"(*sync.WaitGroup).Add":   nativeNop,
 		"(*sync.WaitGroup).Done":  nativeNop,
@@ -161,7 +161,10 @@ func (v *Verifier) lock(s *State, mu *Value, write bool, pos token.Pos) {
 		s.assume(ev.boolExpr(inv.Expr))
 	}
 	// snapshot for locked(e): the state right after the first acquisition of a monitor in the function under verification
-	if s.frame != nil && s.frame.fn == v.top && v.lockSnap[key] == nil {
+	if len(tc.Guards[field]) > 0 {
+		s.ghost["$didlock"] = scalar(types.Typ[types.Bool], True)
+	}
+	if s.frame != nil && s.frame.fn == v.top && v.lockSnap[key] == nil && len(tc.Guards[field]) > 0 {
 		v.lockSnap[key] = s.clone()
 		if v.firstLockSnap == nil {
 			v.firstLockSnap = v.lockSnap[key]
@@ -240,7 +243,7 @@ func (v *Verifier) checkGuard(s *State, lv *LValue, write bool, pos token.Pos) {
 			if write {
 				acc = "write"
 			}
-			v.addOb(s, "lock", pos, Or(alts...), fmt.Sprintf("%s of %s.%s requires %s", acc, typeName(lv.st), fname, mu), nil)
+			v.addOb(s, "lock", pos, Or(alts...), fmt.Sprintf("%s of %s.%s requires %s", acc, typeName(lv.st), fname, mu), tc.GuardProps[mu])
 			return
 		}
 	}
@@ -410,4 +413,34 @@ func nativeAtomicAdd(v *Verifier, s *State, c *ssa.CallCommon, f *ssa.Function, 
 	n := wrapInt(Add(val.term(), a[1].term()), lv.t, true)
 	s.store(lv, scalar(lv.t, n))
 	return scalar(resultType(c), n)
+}
+
+
+// fmt.Sprintf: fresh string whose length is at least the number of literal (non-verb) bytes of a constant format.
+func nativeSprintf(v *Verifier, s *State, c *ssa.CallCommon, f *ssa.Function, a []*Value, p token.Pos) *Value {
+	r := freshValue("ret!Sprintf", resultType(c))
+	if len(a) > 0 && a[0].L[0] != nil {
+		for lit, t := range TS.strLits {
+			if t == a[0].L[0] {
+				n := 0
+				for i := 0; i < len(lit); i++ {
+					if lit[i] == '%' {
+						// skip the verb
+						i++
+						for i < len(lit) && !((lit[i] >= 'a' && lit[i] <= 'z') || (lit[i] >= 'A' && lit[i] <= 'Z') || lit[i] == '%') {
+							i++
+						}
+						if i < len(lit) && lit[i] == '%' {
+							n++
+						}
+						continue
+					}
+					n++
+				}
+				s.assume(Ge(App("slen", SInt, r.term()), Int(int64(n))))
+				v.assumptions["fmt.Sprintf: the result is at least as long as the literal text of a constant format string"] = true
+			}
+		}
+	}
+	return r
 }
